@@ -22,49 +22,61 @@ EXPLANATION = (
     "For each of the classes in desolver.integrators.implicit_methods() the stability function R = P/Q, Q = det(I - zA), "
     "P = det(I - zA + z*1*b^T), is built at run time from the class attributes tableau_intermediate / tableau_final as polynomials "
     "whose coefficients are the exact rational values of the float64 entries (Faddeev-LeVerrier in fractions.Fraction; cross-checked "
-    "against P = Q + z*b^T adj(I - zA) 1).  With z = x + i*w (two real solver variables) z3 decides: (direct) x <= 0 and "
-    "|P|^2 > (1+1e-9)|Q|^2 is unsat; (poles) x <= 0 and Re Q = Im Q = 0 is unsat; (axis) the same two at x = 0.  Independently, and as "
-    "the only half-plane argument for RadauIIA19 (10 stages, two-variable queries do not terminate), pole-freeness of the closed left "
-    "half-plane is certified through Hermite-Biehler: Q(-iw) = E(w^2) + i*w*O(w^2); z3 is asked for deg E roots of E and deg O roots of O, "
-    "all positive and strictly interlacing (sat = certificate that Q(-z) is Hurwitz); the model is then re-validated by exact rational "
-    "sign changes of E and O at separating points; Q(0) > 0, trace A > 0 and deg P <= deg Q are checked exactly; with the axis bound "
-    "and the maximum-modulus principle this gives |R| <= sqrt(1+1e-9) on the half-plane.  Agreement of the CODE with R: the real "
-    "RungeKuttaIntegrator.step (compute_step, algebraic_system, the weighted sum, broyden_update_jac) runs on symbolic (lambda, h, y) "
-    "for y' = lambda*y, shape (1,), and on y' = [[a,-b],[b,a]] y, shape (2,), with optimizer.nonlinear_roots replaced by the exact_root "
-    "stub (fresh stage unknowns K constrained by the residual the real algebraic_system returns for them).  Obligation: "
-    "Q(z)*(y + dState) == P(z)*y with z = h*lambda resp. h*(a+ib) (complex arithmetic written out in real and imaginary part).  It is "
-    "discharged (i) as an exact polynomial identity Q*(y+dState) - P*y == sum_i m_i(z)*residual_i with the multipliers "
-    "m = h*b^T adj(I - zA) computed from the tableau (normal-form arithmetic of the engine, holds for all reals) and (ii) for <= 3 stages "
-    "additionally by z3 under the assumption residual == 0.  Hence an accepted step with Re(h*lambda) <= 0 has |y1| <= sqrt(1+1e-9)|y0|."
+    "against P = Q + z*b^T adj(I - zA) 1).  With z = x + i*w and u = w^2 >= 0 (|P|^2, |Q|^2, Re Q and (Im Q)/w are polynomials in the two "
+    "real solver variables x, u; conjugate symmetry covers w < 0) z3 decides: (direct) x <= 0 and |P|^2 > (1+1e-9)|Q|^2 is unsat; "
+    "(poles) x <= 0 and Re Q = 0 and (w = 0 or (Im Q)/w = 0) is unsat - i.e. det(I - zA) has no zero at all in the closed left half-plane, "
+    "which is stronger than 'R has no pole' (a zero of Q cancelled by P would still be reported); (axis) the same two at x = 0.  "
+    "Independently, and as the only half-plane argument for RadauIIA19 (10 stages, the two-variable queries do not terminate), "
+    "zero-freeness of Q on the closed left half-plane is certified through Hermite-Biehler: Q(-iw) = E(w^2) + i*w*O(w^2); z3 is asked for "
+    "deg E roots of E and deg O roots of O, all positive and strictly interlacing (sat = certificate that Q(-z) is Hurwitz); the model is "
+    "then re-validated in exact rational arithmetic (sign changes of E and O between separating rationals); Q(0) > 0, trace A > 0, the "
+    "degree pattern and deg P <= deg Q are checked exactly; with the axis bound and the maximum-modulus principle this gives "
+    "|R| <= sqrt(1+1e-9) on the half-plane.  Agreement of the CODE with R: the real RungeKuttaIntegrator.step (compute_step, "
+    "algebraic_system, the weighted sum, broyden_update_jac) runs on symbolic (t, h of either sign, y, lambda) for y' = lambda*y, "
+    "shape (1,), for y' = [[a,-b],[b,a]] y and for y' = diag(l0,l1) y, shape (2,), with optimizer.nonlinear_roots replaced by the "
+    "exact_root stub (fresh stage unknowns K; the residual the real algebraic_system returns for them, with the arguments step passes, is "
+    "recorded).  Obligation: Q(z)*(y + dState) == P(z)*y with z = h*lambda resp. h*(a+ib) (complex arithmetic written out in real and "
+    "imaginary part) whenever residual(K) == 0.  It is discharged (i) as the exact polynomial identity "
+    "Q*(y+dState) - P*y == sum_i m_i(z)*residual_i with the multipliers m = h*b^T adj(I - zA) computed from the tableau (normal-form "
+    "arithmetic of the engine over Q, valid for all reals: counted as 'discharged syntactically'); if the identity fails the obligation goes "
+    "to z3 under residual == 0; (ii) for <= 3 stages (scalar) resp. 1 stage (2x2) additionally by z3 under the assumption residual == 0, and "
+    "for <= 2 stages the literal end-to-end statement |y + dState|^2 <= (1+1e-9)|y|^2 under residual == 0 and Re z <= 0 is decided by z3.  "
+    "Hence an accepted exact-root step with Re(h*lambda) <= 0 has |y1| <= sqrt(1+1e-9)|y0|.  Violation candidates are replayed in "
+    "float64/complex128: |R(z)| from numpy.linalg.solve on the class tableau, poles from the eigenvalues of A, the step through the real "
+    "step() with the residual solved by numpy."
 )
 ASSUMPTIONS = [
     "real arithmetic over the exact rational value of every float64 tableau entry (no IEEE rounding inside the step)",
     "slack: |R(z)|^2 <= 1 + 1e-9 is claimed instead of <= 1, in the direct and in the axis query (the rounded float64 coefficients of the "
-    "Gauss/Lobatto IIIA/IIIB/midpoint schemes have |R(iw)| = 1 only to ~1e-16; measured max |R(iw)|-1 = 1.1e-15)",
+    "Gauss / Lobatto IIIA / IIIB / midpoint schemes have |R(iw)| = 1 only to rounding; measured max |R(iw)|-1 = 1.1e-15); the thorough tier "
+    "repeats both queries with 1e-12",
     "exact_root stub for optimizer.nonlinear_roots: returns success=True, prec=0 and stage values K that satisfy the residual of the real "
-    "algebraic_system exactly (symbolic: fresh symbols + residual == 0; float replay: the affine residual solved with numpy.linalg.solve); "
-    "MINPACK's convergence for stiff z is not part of the claim (C15)",
+    "algebraic_system exactly (symbolic: fresh symbols, obligations hold where residual == 0; float replay: the affine residual solved with "
+    "numpy.linalg.solve); MINPACK's convergence for stiff z is not part of the claim (C15)",
     "trusted mathematical base of the Hermite-Biehler branch: (T1) Hermite-Biehler theorem - a real polynomial p(z) = h(z^2) + z g(z^2) with "
     "p(0) > 0, p'(0) > 0 is Hurwitz iff the zeros of E(t) = h(-t) and O(t) = g(-t) are real, positive, simple and interlace starting with a "
-    "zero of E; (T2) maximum-modulus principle for a rational function with deg P <= deg Q that is pole-free on the closed left half-plane: "
-    "sup over the half-plane = sup over the imaginary axis",
-    "each z3 call runs under a timeout; unknown is reported as inconclusive, never as success",
-    "the rhs Jacobian handed to step is the exact one ([[lambda]] resp. [[a,-b],[b,a]]); with the stub it only feeds broyden_update_jac",
+    "zero of E; (T2) maximum-modulus principle for a rational function with deg P <= deg Q without poles on the closed left half-plane: "
+    "its supremum over the half-plane is its supremum over the imaginary axis",
+    "each z3 call runs under a timeout; unknown is booked as inconclusive, never as success; unsat of the certificate query is a violation "
+    "candidate (replayed: a numerically computed pole with Re <= 0)",
+    "the rhs Jacobian handed to step is the exact one ([[lambda]] resp. [[a,-b],[b,a]], diag(l0,l1)); with the stub it only feeds "
+    "broyden_update_jac, whose division forks (zero / non-zero denominator) are all explored",
 ]
 BOUNDS = {
-    "quick": dict(classes="all of implicit_methods()", z="all z = x + i w with x <= 0, |z| unbounded",
-                  two_variable_queries="classes with <= 3 stages", hermite_biehler="every class", slack="1e-9 relative on |R|^2",
-                  step_agreement="shape (1,) every class, 2x2 block every class; symbolic lambda/a,b, h (any sign, incl. 0), y"),
-    "thorough": dict(classes="all of implicit_methods()", z="all z = x + i w with x <= 0, |z| unbounded",
-                     two_variable_queries="classes with <= 3 stages (solver timeout raised)", hermite_biehler="every class",
-                     slack="1e-9 relative on |R|^2",
-                     step_agreement="as quick, plus a second consecutive step from the state reached (shape (1,))"),
+    "quick": dict(classes="all 16 of implicit_methods()", z="all z = x + i w with x <= 0, |z| unbounded",
+                  two_variable_queries="the 15 classes with <= 3 stages", hermite_biehler_and_axis="every class", slack="1e-9 relative on |R|^2",
+                  step_agreement="one step; shape (1,) scalar, shape (2,) rotation block and diagonal pair, every class; symbolic t, h (any sign, "
+                                 "0 included), y, lambda / a, b / l0, l1"),
+    "thorough": dict(classes="all 16 of implicit_methods()", z="all z = x + i w with x <= 0, |z| unbounded",
+                     two_variable_queries="the 15 classes with <= 3 stages, additionally with slack 1e-12", hermite_biehler_and_axis="every class, "
+                     "axis additionally with slack 1e-12", slack="1e-9 relative on |R|^2 (claimed), 1e-12 (additional obligations)",
+                     step_agreement="as quick, plus a second consecutive step from the state reached (scalar: every class; block: <= 3 stages)"),
 }
 OUTSIDE = [
-    "convergence of the real nonlinear solver for stiff z (C15, not applicable); acceptance rule of __call__ (C02 iii)",
-    "IEEE rounding inside the step: |y1| <= |y0| is claimed for the exact-root step over R up to the stated 1e-9 slack",
+    "convergence of the real nonlinear solver for stiff z (C15, not applicable); the acceptance rule of __call__ (C02 iii)",
+    "IEEE rounding inside the step: |y1| <= |y0| is claimed for the exact-root step over R, up to the stated 1e-9 slack",
     "RadauIIA19: no direct two-variable query (Hermite-Biehler + axis bound + maximum modulus only)",
-    "systems that are not normal (non-diagonalisable or non-orthogonally diagonalisable Jacobians): only scalar and 2x2 rotation blocks",
+    "Jacobians that are not normal matrices: only scalar problems, 2x2 rotation-dilation blocks and diagonal pairs are executed",
 ]
 
 TWO_VAR_MAX_STAGES = 3
@@ -107,6 +119,41 @@ def _trim(p):
     return p
 
 
+def _re_im_parts(coeffs):
+    """p(x + i w) = Re(x, u) + i*w*Im(x, u) with u = w^2: two dicts {(deg x, deg u): coefficient}"""
+    from math import comb
+    re, im = {}, {}
+    for k, pk in enumerate(coeffs):
+        if pk == 0:
+            continue
+        for j in range(k + 1):
+            cf = pk * comb(k, j)
+            if j % 2 == 0:
+                key, tgt, sign = (k - j, j // 2), re, (-1) ** (j // 2)
+            else:
+                key, tgt, sign = (k - j, (j - 1) // 2), im, (-1) ** ((j - 1) // 2)
+            tgt[key] = tgt.get(key, F(0)) + sign * cf
+    return ({k: v for k, v in re.items() if v != 0}, {k: v for k, v in im.items() if v != 0})
+
+
+def _ev2(c, poly, x, u):
+    """sum coef * x^i * u^j on SymReal / float; x = None means x = 0"""
+    xp, up = {0: 1}, {0: 1}
+    acc = 0
+    for (i, j), k in sorted(poly.items()):
+        if x is None and i > 0:
+            continue
+        for tbl, e, base in ((xp, i, x), (up, j, u)):
+            if e not in tbl:
+                m = max(q for q in tbl if q < e)
+                val = tbl[m]
+                for q in range(m + 1, e + 1):
+                    val = val * base
+                    tbl[q] = val
+        acc = acc + _coef(c, k) * xp[i] * up[j]
+    return acc
+
+
 _CACHE = {}
 
 
@@ -132,6 +179,8 @@ def _data(clsname):
         P2[k + 1] += sum(v[j][k] for j in range(s))
     assert P2 == P, "internal: matrix determinant lemma cross-check failed"
     d = dict(A=A, b=b, s=s, P=_trim(P), Q=_trim(Q), v=v, Af=ti[:, 1:].astype(np.float64), bf=tf[0, 1:].astype(np.float64))
+    d["Pre"], d["Pim"] = _re_im_parts(d["P"])
+    d["Qre"], d["Qim"] = _re_im_parts(d["Q"])
     _CACHE[clsname] = d
     return d
 
@@ -187,36 +236,43 @@ def instances(tier):
 # ----------------------------------------------------------------------------------------------------------------
 # part 1
 
-def _inconclusive(c, name, reason):
-    """book an obligation as inconclusive (solver unknown) - the engine has no public call for that"""
-    if not c.symbolic:
+def _book(c, name, outcome, reason=""):
+    """book an obligation decided by a z3 call made by this module (not through c.check) as 'discharged' (by the solver) or
+    'inconclusive' (solver unknown) in the engine's statistics - the engine has no public call for that"""
+    if not c.symbolic or c.replaying:
         return
     ex = c.ex
-    if c.replaying:
-        return
     ex.stats["checks"] += 1
-    ex.stats["inconclusive"] += 1
+    ex.stats[outcome] += 1
     st = ex.check_names.setdefault(name, dict(evaluated=0, trivial=0, discharged=0, sat=0, inconclusive=0, known=0))
     st["evaluated"] += 1
-    st["inconclusive"] += 1
+    st[outcome] += 1
     c.checks.append(name)
-    ex.inconclusive.append(dict(check=name, reason=reason, path=[]))
+    if outcome == "inconclusive":
+        ex.inconclusive.append(dict(check=name, reason=reason, path=[]))
+
+
+def _abs2_parts(c, d, which, x, u):
+    re = _ev2(c, d[which + "re"], x, u)
+    im = _ev2(c, d[which + "im"], x, u)
+    return re, im, re * re + u * im * im
 
 
 def _scn_direct(c, inst, d):
+    """z = x + i w, u = w^2 >= 0 (|P|^2, |Q|^2, Re Q and (Im Q)/w are polynomials in x and u).
+    Symbolic only: candidates of the 'direct' / 'axis_hb' instances are replayed by replay() below, not by re-running this on floats."""
     x = c.real("x")
-    w = c.real("w")
+    u = c.real("u")
     c.assume(x <= 0)
-    z = (x, w)
-    Pz = _cpoly(c, d["P"], z)
-    Qz = _cpoly(c, d["Q"], z)
-    bound = (1 + SLACK) if c.symbolic else (1.0 + float(SLACK))
-    c.check("c11.halfplane.R_bounded_by_one", ~(_abs2(Pz) > bound * _abs2(Qz)) if c.symbolic else not (_abs2(Pz) > bound * _abs2(Qz)),
+    c.assume(u >= 0)
+    _, _, P2 = _abs2_parts(c, d, "P", x, u)
+    Qre, Qim, Q2 = _abs2_parts(c, d, "Q", x, u)
+    c.check("c11.halfplane.R_bounded_by_one", ~(as_real(P2) > (1 + SLACK) * Q2),
             info=dict(cls=inst["cls"], what="|P(z)|^2 <= (1+1e-9)|Q(z)|^2 for Re z <= 0"))
-    c.check("c11.halfplane.no_pole", ~((Qz[0] == 0) & (Qz[1] == 0)) if c.symbolic else not (Qz[0] == 0 and Qz[1] == 0),
+    c.check("c11.halfplane.no_pole", ~((as_real(Qre) == 0) & ((u == 0) | (as_real(Qim) == 0))),
             info=dict(cls=inst["cls"], what="Q(z) != 0 for Re z <= 0"))
-    if inst.get("tight") and c.symbolic:
-        c.check("c11.halfplane.R_bounded_by_one.slack_1e-12", ~(_abs2(Pz) > (1 + TIGHT) * _abs2(Qz)),
+    if inst.get("tight"):
+        c.check("c11.halfplane.R_bounded_by_one.slack_1e-12", ~(as_real(P2) > (1 + TIGHT) * Q2),
                 info=dict(cls=inst["cls"], what="|P(z)|^2 <= (1+1e-12)|Q(z)|^2 for Re z <= 0"))
 
 
@@ -251,6 +307,9 @@ def _hb_certificate(d, timeout_ms):
     # a Hurwitz polynomial of degree n has deg E = floor(n/2), deg O = floor((n-1)/2)
     if nE != n // 2 or nO != (n - 1) // 2 or (n >= 2 and O == [0]):
         res.update(status="unsat", validated=False, roots=[], detail="degree pattern of even/odd part excludes a Hurwitz polynomial")
+        return res
+    if nE == 0 and nO == 0:
+        res.update(status="sat", validated=True, roots=[], detail="degree 1: Q(0) > 0 and trace(A) > 0 suffice")
         return res
     es = [z3.Real("e%d" % i) for i in range(nE)]
     os_ = [z3.Real("o%d" % i) for i in range(nO)]
@@ -318,52 +377,43 @@ def _validate_interlacing(E, O, approx, nE, nO):
     if any(not (u < v_) for u, v_ in zip(approx, approx[1:])) or not approx[0] > 0:
         return False
     t = [F(0)] + [(u + v_) / 2 for u, v_ in zip(approx, approx[1:])] + [approx[-1] * 2 + 1]
-    nxt = dict(E=0, O=0)
-    for i in range(len(approx)):
-        which = "E" if (i % 2 == 0 and nxt["E"] < nE) else "O"
-        if i % 2 == 1 and nxt["O"] >= nO:
-            which = "E"
-        p = E if which == "E" else O
-        nxt[which] += 1
-        lo, hi = _peval(p, t[i]), _peval(p, t[i + 1])
-        if not (lo * hi < 0):
+    for i in range(len(approx)):          # the sequence alternates E, O, E, ... by construction
+        p = E if i % 2 == 0 else O
+        if not (_peval(p, t[i]) * _peval(p, t[i + 1]) < 0):
             return False
-    return nxt["E"] == nE and nxt["O"] == nO
+    return (len(approx) + 1) // 2 == nE and len(approx) // 2 == nO
 
 
 def _scn_axis_hb(c, inst, d):
     cls = inst["cls"]
-    w = c.real("w")
-    z = (0, w)
-    Pz = _cpoly(c, d["P"], z)
-    Qz = _cpoly(c, d["Q"], z)
-    bound = (1 + SLACK) if c.symbolic else (1.0 + float(SLACK))
-    if c.symbolic:
-        c.check("c11.axis.R_bounded_by_one", ~(_abs2(Pz) > bound * _abs2(Qz)), info=dict(cls=cls, what="|P(iw)|^2 <= (1+1e-9)|Q(iw)|^2"))
-        c.check("c11.axis.no_pole", ~((as_real(Qz[0]) == 0) & (as_real(Qz[1]) == 0)), info=dict(cls=cls, what="Q(iw) != 0"))
-        if inst.get("tight"):
-            c.check("c11.axis.R_bounded_by_one.slack_1e-12", ~(_abs2(Pz) > (1 + TIGHT) * _abs2(Qz)),
-                    info=dict(cls=cls, what="|P(iw)|^2 <= (1+1e-12)|Q(iw)|^2"))
-    else:
-        c.check("c11.axis.R_bounded_by_one", not (_abs2(Pz) > bound * _abs2(Qz)))
-        c.check("c11.axis.no_pole", not (Qz[0] == 0 and Qz[1] == 0))
+    u = c.real("u")
+    c.assume(u >= 0)
+    _, _, P2 = _abs2_parts(c, d, "P", None, u)
+    Qre, Qim, Q2 = _abs2_parts(c, d, "Q", None, u)
+    c.check("c11.axis.R_bounded_by_one", ~(as_real(P2) > (1 + SLACK) * Q2), info=dict(cls=cls, what="|P(iw)|^2 <= (1+1e-9)|Q(iw)|^2"))
+    c.check("c11.axis.no_pole", ~((as_real(Qre) == 0) & ((u == 0) | (as_real(Qim) == 0))), info=dict(cls=cls, what="Q(iw) != 0"))
+    if inst.get("tight"):
+        c.check("c11.axis.R_bounded_by_one.slack_1e-12", ~(as_real(P2) > (1 + TIGHT) * Q2),
+                info=dict(cls=cls, what="|P(iw)|^2 <= (1+1e-12)|Q(iw)|^2"))
     c.check("c11.infinity.degP_le_degQ", len(d["P"]) <= len(d["Q"]), info=dict(cls=cls, degP=len(d["P"]) - 1, degQ=len(d["Q"]) - 1))
-    if not c.symbolic:
-        return
     if c.replaying:
         return
     cert = _hb_certificate(d, inst.get("hb_timeout_ms", 30000))
     c.note("hermite_biehler", cert)
+    name = "c11.halfplane.hurwitz_certificate"
     if cert["status"] == "unknown":
-        _inconclusive(c, "c11.halfplane.hurwitz_certificate", "z3 unknown on the interlacing query")
+        _book(c, name, "inconclusive", "z3 unknown on the interlacing query")
+    elif cert["status"] == "unsat":
+        c.check(name, False, info=dict(cls=cls, cert=cert))           # violation candidate, replayed numerically
+    elif cert.get("z3_s") is None:
+        c.check(name, True, info=dict(cls=cls, cert=cert))            # degree <= 1: nothing to interlace, decided by the exact sign tests
     else:
-        c.check("c11.halfplane.hurwitz_certificate", cert["status"] == "sat", info=dict(cls=cls, cert=cert))
-        if cert["status"] == "sat":
-            if cert["validated"]:
-                c.check("c11.halfplane.hurwitz_certificate_exact_sign_validation", True)
-            else:
-                _inconclusive(c, "c11.halfplane.hurwitz_certificate_exact_sign_validation",
-                              "the approximated z3 model did not separate the roots in exact arithmetic")
+        _book(c, name, "discharged")
+    if cert["status"] == "sat":
+        if cert["validated"]:
+            c.check(name + "_exact_sign_validation", True)
+        else:
+            _book(c, name + "_exact_sign_validation", "inconclusive", "the approximated z3 model did not separate the roots in exact arithmetic")
 
 
 def as_real(x):
@@ -579,7 +629,7 @@ def replay(inst, witness, check_name):
         scenario(cc, inst)
         return dict(reproduced=check_name in cc.failed, failed=sorted(set(cc.failed)), notes={k: repr(v)[:300] for k, v in cc.notes.items()})
     x = float(F(witness.get("x", "0"))) if kind == "direct" else 0.0
-    w = float(F(witness.get("w", "0")))
+    w = float(np.sqrt(max(0.0, float(F(witness.get("u", "0"))))))
     z = complex(x, w)
     out = dict(z=[x, w])
     if check_name.endswith("R_bounded_by_one"):
